@@ -57,8 +57,14 @@ impl<R: BufRead> Decoder<R> {
         // string so we need to read an additional byte.
         if self.encoding == Encoding::Utf16LE && self.read_buf.ends_with(b"\n") {
             let mut byte = 0;
-            self.inner.read_exact(slice::from_mut(&mut byte))?;
-            self.read_buf.push(byte);
+
+            match self.inner.read_exact(slice::from_mut(&mut byte)) {
+                Ok(()) => self.read_buf.push(byte),
+                // The input ends right after the `\n` byte; that is the
+                // end of the data, not a failure of the reader.
+                Err(err) if err.kind() == ErrorKind::UnexpectedEof => {}
+                Err(err) => return Err(err),
+            }
         }
 
         Ok(Some(self.curr_line()))
